@@ -49,7 +49,8 @@ def enc_marker(m):
         raise TypeError(m)
     return US.join(e(m))
 
-INTERPRETERS = ["2.7.18", "3.6.0", "3.6.15", "3.7.9", "3.8.0", "3.9.1", "3.10.0", "3.10.12", "3.12.1"]
+# patch levels on both sides of every three-component literal the generators use (3.8.10 needs 3.8.5 below it, 3.9.20 needs 3.9.1 / 3.9.19)
+INTERPRETERS = ["2.7.18", "3.6.0", "3.6.15", "3.7.9", "3.8.0", "3.8.5", "3.8.10", "3.9.1", "3.9.19", "3.9.20", "3.10.0", "3.10.9", "3.10.12", "3.12.1"]
 PLATFORMS = [
     dict(sys_platform="linux", os_name="posix", platform_machine="x86_64", platform_system="Linux", platform_release="5.10.0",
          platform_version="#1 SMP Debian 5.10.46-4 (2021-08-03)", implementation_name="cpython", platform_python_implementation="CPython"),
@@ -93,7 +94,7 @@ def gen_leaf(rng, focus=None):
         return f"python_version {op} {q(rng, lit)}", "pv"
     if kind == "pfv":
         three = rng.random() < 0.6
-        lit = rng.choice(["3.6.0", "3.6.15", "3.7.9", "3.8.0", "3.9.1", "3.10.0", "3.10.5", "3.12.1"]) if three else rng.choice(["3.6", "3.7", "3.9", "3.10"])
+        lit = rng.choice(["3.6.0", "3.6.15", "3.7.9", "3.8.0", "3.8.10", "3.9.1", "3.9.20", "3.10.0", "3.10.5", "3.10.10", "3.12.1"]) if three else rng.choice(["3.6", "3.7", "3.9", "3.10"])
         op = rng.choice(["<", "<=", ">", ">=", "==", "!="] + (["~="] if three else []))
         if rng.random() < 0.15: return f"{q(rng, lit)} {op} python_full_version", "reversed"
         return f"python_full_version {op} {q(rng, lit)}", "pfv"
